@@ -492,7 +492,7 @@ FLATE_ASSUME = 'compress/flate is an oracle (Section variables dz / inflate), in
 COMMON_TRUSTED = [
     'extraction: Require Extraction + ExtrOcamlBasic only (bool/option/unit/list/prod/sumbool/sumor mapped to OCaml; N, Z, positive, nat stay inductive); no Extract Constant',
     'hand-written OCaml driver /verif/ocaml (hex, PRNG, digests) and Go harness /verif/harness; python orchestrator /verif/check',
-    'translator /verif/tools/constx (Go constants, validWireCloseCode, the switches of writeFrameHeader / readFrameHeader, readRSV1Illegal, CompressionMode.opts -> coq/Gen/*.v)',
+    'translator /verif/tools/constx (Go constants, validWireCloseCode, the switches of writeFrameHeader / readFrameHeader, readRSV1Illegal, CompressionMode.opts, the checks of readLoop / handleControl, the EOF codes of netConn.read -> coq/Gen/*.v)',
 ]
 
 WIREIN_RULE = ('wire-in suite: seeded peer byte streams = 1-4 messages (plain / compressed at 5 deflate levels incl. stored and Huffman-only, '
